@@ -394,3 +394,17 @@ def c13_4(cx):
     for s in chs:
         ok = any(d.site_dominates(v, s) for v in val)
         cx.check(ok, "a provisional participant of an earlier revision is revalidated through its cycle heads before it is re-executed alone", s, {"validate_calls_in_deep_verify_memo": len(val)}, key="lone-reexecution-of-participant")
+
+
+@ob("C12.6", ["C12", "C18", "C15"], "iteration stamps identify WHICH iteration a provisional memo saw: a former head that completes without a cycle after iterating and gets stamp 0 again is indistinguishable from its own initial value, so lazy finalisation accepts participants computed from bottom", kind="FLOW (stamp of a query that completes outside a cycle)")
+def c12_6(cx):
+    """try_complete_query, no-cycle-heads exit: the completed query is popped with IterationStamp::default() only if this was the initial iteration, otherwise with the INCREMENTED stamp (never a reset to initial)."""
+    t = cx.fn(EXE + r"try_complete_query$")
+    pops = [s for s in t.calls(r"ActiveQueryGuard::<'.*>::pop$|ActiveQueryGuard.*::pop$")]
+    cx.sites(pops, 1, "pop on the no-cycle exit of try_complete_query")
+    for p in pops:
+        o = cx.arg(p, 1)
+        cx.flow(t, o, [r"^phi\{(<IterationStamp as std::default::Default>::default\(\) \| std::option::Option::<T>::unwrap_or_else\(cycle::IterationStamp::increment_iteration\(\$4\), closure:.*\)|std::option::Option::<T>::unwrap_or_else\(cycle::IterationStamp::increment_iteration\(\$4\), closure:.*\) \| <IterationStamp as std::default::Default>::default\(\))\}$"], [r"IterationStamp::initial\(", r"^\$4$"], "the stamp is default() for a first iteration and the incremented stamp otherwise", p)
+    init = CallIs(r"IterationStamp::is_initial_iteration$", True, [r"^\$4$"], desc="iteration.is_initial_iteration()")
+    for d in t.calls(r"Default>::default$|IterationStamp.*default$"):
+        cx.only_if(t, d, init, "the default (zero) stamp is used only when no iteration took place")
